@@ -11,7 +11,7 @@ import numpy as np
 from .. import gen, models
 
 ID = 'C15'
-RULE = ('domain of 1-5 attributes with sizes 1-6 x record-set class {empty, one row, duplicates, boundary values, '
+RULE = ('(size laws also on 8-70 attribute domains with sizes up to 65536, too large to vectorise) domain of 1-5 attributes with sizes 1-6 x record-set class {empty, one row, duplicates, boundary values, '
         'random} x weights {None, positive, zeros, fractional} x extra / reordered data-frame columns; per case every '
         'projection tuple (subsets x orderings, capped at 24) and every domain law; distinct = content hash; '
         'non-trivial = at least one record and >= 2 cells')
@@ -194,6 +194,17 @@ def run_case(case, ctx):
         and s1.size() == D.size(), "sort('size') is not the same attributes in non-decreasing size")
     s2 = D.sort('name')
     law(list(s2.attrs) == sorted(attrs) and all(s2[a] == D[a] for a in attrs), "sort('name')")
+    # a domain far too large to vectorise (the mechanisms size candidate models on such domains): sizes are exact integers
+    import math
+    hd = int(rng.randint(8, 71))
+    hn = ['h%d' % i for i in range(hd)]
+    hs = [int(gen.pick(rng, [2, 3, 10, 100, 1000, 65536])) for _ in hn]
+    Hd = m.Domain(hn, hs)
+    law(Hd.size() == math.prod(hs), 'size() of a %d-attribute domain is %r, the product of its sizes is %r' % (hd, Hd.size(), math.prod(hs)))
+    hk = [hn[i] for i in rng.permutation(hd)[:int(rng.randint(0, hd + 1))]]
+    law(Hd.size(hk) == math.prod(hs[hn.index(a)] for a in hk) and Hd.project(hk).size() == Hd.size(hk), 'size of a %d-attribute projection of a large domain' % len(hk))
+    law(Hd.size(hk) * Hd.size(Hd.invert(hk)) == Hd.size(), 'size(A) * size(complement of A) != size() on a large domain')
+    law(Hd.project(hk).merge(Hd.marginalize(hk)).size() == Hd.size(), 'merge of a projection with its complement does not have the size of the domain')
     ctx.check(ok, 'domain_laws', 'law', lambda: '; '.join(msgs[:4]))
 
 
